@@ -409,6 +409,7 @@ func rqRunCase(w *bufio.Writer, rng *rand.Rand, name string, nOps int, st *rqGen
 	maxFrags := 1 + rng.Intn(4)
 	big := rng.Intn(12) == 0 // long messages / many sets: sorted slices beyond 12 elements
 	if big {
+		hostilePct = []int{0, 0, 5}[rng.Intn(3)]
 		nMsg = 30 + rng.Intn(30)
 		if rng.Intn(2) == 0 {
 			maxFrags = 20
@@ -419,6 +420,9 @@ func rqRunCase(w *bufio.Writer, rng *rand.Rand, name string, nOps int, st *rqGen
 		msgs = append(msgs, rqUniverse(rng, si, true, pUnordered, 6, tsn0+500, ssn0, mid0, umid0, maxFrags, zeroLenPct)...)
 	}
 
+	if big && rng.Intn(4) != 0 {
+		maxEntries = 0
+	}
 	q := newReassemblyQueue(si, maxEntries)
 	q.nextSSN, q.nextMID = ssn0, mid0 // white-box preset: counters start near their wraps
 	if rng.Intn(6) == 0 {
@@ -429,15 +433,21 @@ func rqRunCase(w *bufio.Writer, rng *rand.Rand, name string, nOps int, st *rqGen
 
 	// a window of messages the "sender" has released so far: arrivals are drawn from it
 	released := 1 + rng.Intn(4)
+	if big {
+		released = len(msgs) / 2 // many messages in flight at once, few reads: slices grow beyond 12 elements
+	}
 	for i := 0; i < nOps; i++ {
 		if rng.Intn(4) == 0 && released < len(msgs) {
 			released++
 		}
 		r := rng.Intn(100)
+		if big && r >= 62 && r < 76 {
+			r = 0
+		}
 		switch {
 		case r < 62:
 			lo := 0
-			if released > 8 && rng.Intn(4) != 0 {
+			if released > 8 && rng.Intn(4) != 0 && !big {
 				lo = released - 8
 			}
 			m := msgs[lo+rng.Intn(released-lo)]
@@ -445,7 +455,7 @@ func rqRunCase(w *bufio.Writer, rng *rand.Rand, name string, nOps int, st *rqGen
 			if rng.Intn(100) < hostilePct {
 				rqMutate(rng, c, si, st)
 			}
-			if !rqSortSafe(q, c) {
+			if !rqSortSafe(q, c) && os.Getenv("VERIF_RQ_NOFILTER") == "" {
 				st.skippedUnsafe++
 				continue
 			}
@@ -512,7 +522,8 @@ func rqRunCase(w *bufio.Writer, rng *rand.Rand, name string, nOps int, st *rqGen
 }
 
 // rqReplayCorpus replays minimised op lists (corpus/rq.ops): lines
-//   new si maxEntries nextSSN nextMID | push <11 fields> <data...> | read n | readable | fwdo v | fwdu v | fwdom v | fwdum v
+//
+//	new si maxEntries nextSSN nextMID | push <11 fields> <data...> | read n | readable | fwdo v | fwdu v | fwdom v | fwdum v
 func rqReplayCorpus(w *bufio.Writer, path string) {
 	data, err := os.ReadFile(path)
 	if err != nil {
